@@ -19,7 +19,7 @@ def run(tier, seed, rep, replay=None):
     grid = [(1, 1), (16, 1), (128, 8), (256, 16), (1024, 128)] if tier == "quick" else [(1, 1), (2, 3), (16, 1), (64, 4), (128, 8), (100, 7), (1024, 128)]
     cases = []
     if replay is not None:
-        cases = [replay["case"]["run"]]
+        cases = [replay["case"]["run"]] if "run" in replay["case"] else []
     else:
         for t in types:
             for rw in ("read", "write"):
@@ -28,6 +28,22 @@ def run(tier, seed, rep, replay=None):
                                   "nnb": rng.choice([1, 2]), "seed": rng.randrange(1000)})
     res = common.run_worker("worker_jobs", cases, shards=8)
     nx, ny, mem = mod.NUM_X, mod.NUM_Y, mod.MEM_SIZE
+    # (n) the addresses the generator uses for tile (x,y) and memory channel c start the rules the real address maps
+    # give to cluster (x,y) and to the c-th boundary memory (the concrete form of c19_names, independent of the model)
+    if replay is None or replay["case"].get("example"):
+        for ex, rules in maps:
+            start = {nm: lo for nm, lo, hi in rules}
+            want = [(f"ClusterX{x}Y{y}SamIdx", mod.get_xy_base_addr(x, y), f"the local address of tile ({x},{y})")
+                    for x in range(nx) for y in range(ny)] + \
+                   [(f"Hbm{c}SamIdx", mod.get_hbm_base_addr(c), f"the address of memory channel {c}") for c in range(ny)]
+            bad = [(nm, a, what) for nm, a, what in want if start.get(nm) != a]
+            if bad:
+                nm, a, what = bad[0]
+                owner = [n2 for n2, lo, hi in rules if lo <= a < hi]
+                rep.fail(f"C19:wrong-owner:{ex}", f"{ex}: {what} is {hex(a)}, but rule {nm} starts at "
+                         f"{hex(start[nm]) if nm in start else 'nowhere (no such rule)'}; the address lies in {owner or 'no rule'} "
+                         f"({len(bad)} of {len(want)} tiles / channels affected)", {"example": ex, "rule": nm},
+                         observed=hex(a), expected="start of " + nm)
     reqs, meta = [], []
     evaluations = 0
     distinct = set()
